@@ -226,7 +226,7 @@ func genInjCase(rng *rand.Rand) *injCase {
 			c.Params = append(c.Params, tyName(pickParam(rng, c.Regs)))
 		}
 	}
-	if !c.Apply && len(c.Regs) > 0 && rng.Intn(2) == 0 {
+	if len(c.Regs) > 0 && rng.Intn(2) == 0 {
 		// a history: resolve once, register more (mostly re-registrations of what exists), resolve again
 		for k := 1 + rng.Intn(3); k > 0; k-- {
 			prev := c.Regs[rng.Intn(len(c.Regs))]
@@ -543,53 +543,74 @@ func judgeInj(w *core.W, c *injCase) {
 	if c.Apply {
 		var tgt applyTarget
 		tgt.C = "untouched"
-		var err error
-		var pan interface{}
-		func() {
-			defer func() { pan = recover() }()
-			err = nearest.Apply(&tgt)
-		}()
-		fields := []struct {
-			name string
-			t    reflect.Type
-			v    reflect.Value
-		}{{"A", tyT1, reflect.ValueOf(tgt.A)}, {"B", tyI1, reflect.ValueOf(&tgt.B).Elem()}, {"E", tyI2, reflect.ValueOf(&tgt.E).Elem()}, {"F", tyN, reflect.ValueOf(tgt.F)}}
-		if pan != nil {
-			w.Violate("apply", c, fmt.Sprintf("Apply panicked: %v", pan))
+		if len(c.Regs)%2 == 1 {
+			// a struct pre-filled by its constructor: tagged fields are injected all the same
+			tgt.A, tgt.F = cT1{"prefilled"}, cN(-1)
+			tgt.B = cT1{"prefilled"}
+		}
+		applyOnce := func(label string) bool {
+			var err error
+			var pan interface{}
+			func() {
+				defer func() { pan = recover() }()
+				err = nearest.Apply(&tgt)
+			}()
+			fields := []struct {
+				name string
+				t    reflect.Type
+				v    reflect.Value
+			}{{"A", tyT1, reflect.ValueOf(tgt.A)}, {"B", tyI1, reflect.ValueOf(&tgt.B).Elem()}, {"E", tyI2, reflect.ValueOf(&tgt.E).Elem()}, {"F", tyN, reflect.ValueOf(tgt.F)}}
+			if pan != nil {
+				w.Violate("apply", c, fmt.Sprintf("%s: Apply panicked: %v", label, pan))
+				return false
+			}
+			w.Count("apply")
+			for _, fd := range fields {
+				acc, _, _ := resolve(tbl, fd.t)
+				if acc == nil {
+					if err == nil || !strings.Contains(err.Error(), fd.t.String()) {
+						w.Violate("apply", c, fmt.Sprintf("%s: field %s (%v) cannot be resolved; Apply returned %v", label, fd.name, fd.t, err))
+					} else {
+						w.Count("apply-unresolved")
+					}
+					return false // Apply stops at the first unresolved field
+				}
+				got := tagOfValue(fd.v, chans)
+				ok := false
+				for _, a := range acc {
+					if a == got {
+						ok = true
+					}
+				}
+				if !ok {
+					w.Violate("apply", c, fmt.Sprintf("%s: field %s (%v) = %q; acceptable: %v", label, fd.name, fd.t, got, acc))
+					return false
+				}
+			}
+			if err != nil {
+				w.Violate("apply", c, fmt.Sprintf("%s: all tagged fields are resolvable, Apply returned %v", label, err))
+				return false
+			}
+			if tgt.C != "untouched" || tgt.d != nil || tgt.G != (cT3{}) || tgt.H != nil {
+				w.Violate("apply", c, label+": an untagged or unexported field was modified")
+				return false
+			}
+			return true
+		}
+		if !applyOnce("first Apply") {
 			return
 		}
-		w.Count("apply")
-		for _, fd := range fields {
-			acc, _, _ := resolve(tbl, fd.t)
-			if acc == nil {
-				if err == nil || !strings.Contains(err.Error(), fd.t.String()) {
-					w.Violate("apply", c, fmt.Sprintf("field %s (%v) cannot be resolved; Apply returned %v", fd.name, fd.t, err))
-				} else {
-					w.Count("apply-unresolved")
-				}
-				return // Apply stops at the first unresolved field
+		if len(c.Later) > 0 {
+			for _, rg := range c.Later {
+				applyReg(scopes[rg.Scope], rg, chans)
+				tbl[rg.Scope][tyByName(rg.Key)] = rg.Tag
 			}
-			got := tagOfValue(fd.v, chans)
-			ok := false
-			for _, a := range acc {
-				if a == got {
-					ok = true
-				}
-			}
-			if !ok {
-				w.Violate("apply", c, fmt.Sprintf("field %s (%v) = %q; acceptable: %v", fd.name, fd.t, got, acc))
+			w.Count("apply-again-after-more-registrations")
+			if !applyOnce("second Apply on the same struct, after the later registrations") {
 				return
 			}
 		}
-		if err != nil {
-			w.Violate("apply", c, fmt.Sprintf("all tagged fields are resolvable, Apply returned %v", err))
-			return
-		}
-		if tgt.C != "untouched" || tgt.d != nil || tgt.G != (cT3{}) || tgt.H != nil {
-			w.Violate("apply", c, "an untagged or unexported field was modified")
-			return
-		}
-		w.NonTrivial(core.Hash64("apply", fmt.Sprint(c.Regs)), nil)
+		w.NonTrivial(core.Hash64("apply", fmt.Sprint(c.Regs, c.Later)), nil)
 		return
 	}
 
@@ -724,10 +745,14 @@ type flameInjCase struct {
 	Req      []injReg `json:"request"`  // Context.Map*/Set in the first handler of request 1
 	Params   []string `json:"params"`   // parameters of the later handler
 	Wrapping string   `json:"wrapping"` // plain | context | http | handlerfunc | teapot | logger
+	Remap    bool     `json:"context_remapped,omitempty"` // an earlier handler re-registers the Context type in the request scope (a decorating wrapper); later handlers must receive the wrapper
 }
 
+// c04CtxWrap decorates the request's Context.
+type c04CtxWrap struct{ flamego.Context }
+
 func genFlameInjCase(rng *rand.Rand) *flameInjCase {
-	c := &flameInjCase{Wrapping: []string{"plain", "plain", "plain", "context", "http", "handlerfunc", "teapot", "logger"}[rng.Intn(8)]}
+	c := &flameInjCase{Wrapping: []string{"plain", "plain", "plain", "context", "http", "handlerfunc", "teapot", "logger"}[rng.Intn(8)], Remap: rng.Intn(3) == 0}
 	n := 0
 	gen := func() injReg {
 		key := c04Tys[rng.Intn(len(c04Tys))]
@@ -790,7 +815,12 @@ func judgeFlameInj(w *core.W, c *flameInjCase) {
 	for i, p := range c.Params {
 		params[i] = tyByName(p)
 	}
+	var wrapCtx flamego.Context
 	mapper := func(ctx flamego.Context) {
+		if c.Remap {
+			wrapCtx = &c04CtxWrap{Context: ctx}
+			ctx.MapTo(wrapCtx, (*flamego.Context)(nil))
+		}
 		if ctx.Request().Header.Get("X-Map") == "yes" {
 			for _, rg := range c.Req {
 				applyReg(ctx, rg, chans)
@@ -815,7 +845,9 @@ func judgeFlameInj(w *core.W, c *flameInjCase) {
 	case "context":
 		wrapped = func(ctx flamego.Context) {
 			wran++
-			if ctx != curCtx {
+			if c.Remap && ctx != wrapCtx {
+				svcOK = "func(Context) did not receive the Context that an earlier handler re-registered for this request (a later registration replaces the earlier)"
+			} else if !c.Remap && ctx != curCtx {
 				svcOK = "func(Context) received a Context that is not the request's own"
 			}
 		}
@@ -841,8 +873,8 @@ func judgeFlameInj(w *core.W, c *flameInjCase) {
 	case "logger":
 		wrapped = flamego.LoggerInvoker(func(ctx flamego.Context, l *log.Logger) {
 			wran++
-			if ctx != curCtx || l == nil {
-				svcOK = "LoggerInvoker received services that are not the request's own"
+			if (c.Remap && ctx != wrapCtx) || (!c.Remap && ctx != curCtx) || l == nil {
+				svcOK = "LoggerInvoker received services that are not the request's own (or not the re-registered Context)"
 			}
 		})
 	default:
@@ -900,6 +932,9 @@ func judgeFlameInj(w *core.W, c *flameInjCase) {
 		return
 	}
 	w.Count("wrapping:" + c.Wrapping)
+	if c.Remap && (c.Wrapping == "context" || c.Wrapping == "logger") {
+		w.Count("context-remapped-before-context-handler")
+	}
 	shadow := false
 	for k := range reqTbl {
 		if _, ok := appTbl[k]; ok {
@@ -930,7 +965,7 @@ func runC04(r *core.Run) {
 		judgeFlameInj(w, c)
 	})
 	r.Gate("distinct_nontrivial", r.NonTrivialCount(), 5000)
-	for _, k := range []string{"nt:candidates-in>=2-scopes", "nt:exact-and-implementor", "nt:unresolvable", "nt:re-registered", "invocations:fast", "invocations:reflective", "apply", "apply-unresolved", "flame-requests", "nt:request-shadows-application", "wrapping:context", "wrapping:http", "wrapping:handlerfunc", "wrapping:teapot", "wrapping:logger", "several-implementors-in-scope(any accepted)", "second-invocation-after-more-registrations", "nt:later-registration-changes-the-resolution"} {
+	for _, k := range []string{"nt:candidates-in>=2-scopes", "nt:exact-and-implementor", "nt:unresolvable", "nt:re-registered", "invocations:fast", "invocations:reflective", "apply", "apply-unresolved", "flame-requests", "nt:request-shadows-application", "wrapping:context", "wrapping:http", "wrapping:handlerfunc", "wrapping:teapot", "wrapping:logger", "several-implementors-in-scope(any accepted)", "second-invocation-after-more-registrations", "nt:later-registration-changes-the-resolution", "apply-again-after-more-registrations", "context-remapped-before-context-handler"} {
 		r.GateCounter(k, 100)
 	}
 }
